@@ -28,7 +28,8 @@ ASSUMPTIONS = ['momentum and weight decay off so that updates expose the '
                'application is numerically ill-conditioned (forward error '
                'bound above 1e-3 of the result)']
 EXPECTED_PROBES = ['scale_spread_ge_1e6', 'onehot_block', 'ragged_block',
-                   'two_blocked_axes', 'companion_checked']
+                   'two_blocked_axes', 'companion_checked', 'solo_block_checked',
+                   'small_parameter_with_larger_companion']
 
 
 def generate(seed, idx, tier):
@@ -36,10 +37,16 @@ def generate(seed, idx, tier):
   sysm = pick(rng, ['ds', 'ds', 'tearfree'])
   b = pick(rng, [2, 3, 4])
   two = rng.random() < 0.5
+  small = sysm == 'ds' and rng.random() < 0.25
   if sysm == 'ds':
-    ragged = rng.random() < 0.4
+    ragged = rng.random() < 0.4 and not small
     d0 = b * pick(rng, [2, 3]) + (rng.randrange(1, b) if ragged else 0)
     d1 = b * pick(rng, [2, 3]) if two else rng.randrange(2, b + 1)
+    if small:
+      # a parameter smaller than the block size next to companions with
+      # larger statistics: its statistics are padded only in world C
+      b = pick(rng, [4, 6, 8])
+      d0, d1, two = rng.randrange(2, b), rng.randrange(2, b), False
     graft = pick(rng, [0, 0, 1, 2])
     cfg = {'block_size': b, 'best_effort_shape_interpretation': False,
            'beta1': 0.0, 'beta2': pick(rng, [1.0, 0.999, 0.9]),
@@ -75,6 +82,8 @@ def generate(seed, idx, tier):
                 'hot': rng.randrange(64)})
   companions = [[rng.randrange(2, 9), rng.randrange(2, 9)]
                 for _ in range(rng.randrange(1, 3))]
+  if small:
+    companions[0] = [b, rng.randrange(2, 9)]
   return {'system': sysm, 'class': f"{sysm}_{'2ax' if two else '1ax'}",
           'x64': True, 'config': cfg, 'shape': [d0, d1], 'block': b,
           'spread': spread, 'scale_seed': rng.randrange(1 << 30),
@@ -82,7 +91,7 @@ def generate(seed, idx, tier):
           'companion_scale': 10.0 ** rng.randrange(-4, 5),
           'lr': {'kind': 'const', 'v': pick(rng, [1.0, 0.1])},
           'param_seed': rng.randrange(1000), 'ops': ops, 'ragged': ragged,
-          'two': two}
+          'two': two, 'small': small, 'solo_block': rng.randrange(64)}
 
 
 def run(plan):
@@ -114,6 +123,9 @@ def run(plan):
   for p_ in (pa, pb, pc):
     p_['mode'] = 'jit'
   A, B, C = make_world(pa), make_world(pb), make_world(pc)
+  solo = plan.get('solo_block', 0) % nblk
+  pb1 = dict(plan, tree=[list(grid[solo][1])], mode='jit')
+  B1 = make_world(pb1)
   prng = np.random.Generator(np.random.PCG64(int(plan['param_seed'])))
   theta = np.asarray(prng.standard_normal((d0, d1)) * 0.5, fdt)
   theta_c = [np.asarray(prng.standard_normal(s) * 0.5, fdt) for s in comp]
@@ -121,6 +133,10 @@ def run(plan):
   par_b = [np.ascontiguousarray(theta[sl]) for sl, _ in grid]
   par_c = [theta] + theta_c
   sa, sb, sc = A.init(par_a), B.init(par_b), C.init(par_c)
+  par_b1 = [par_b[solo]]
+  sb1 = B1.init(par_b1)
+  if plan.get('small'):
+    ctx.probe('small_parameter_with_larger_companion')
   mk = sysm
   graft = plan['config'].get('graft_type', 1) if sysm == 'ds' else \
       plan['config']['graft']['grafting_type']
@@ -146,6 +162,8 @@ def run(plan):
     ua, sa = A.update([g], sa, par_a)
     ub, sb = B.update([np.ascontiguousarray(g[sl]) for sl, _ in grid], sb, par_b)
     uc, sc = C.update([g] + gc, sc, par_c)
+    ub1, sb1 = B1.update([np.ascontiguousarray(g[grid[solo][0]])], sb1, par_b1)
+    ub1 = np.asarray(B1.updates_np(ub1)[0], np.float64)
     ua = np.asarray(A.updates_np(ua)[0], np.float64)
     ub = [np.asarray(x, np.float64) for x in B.updates_np(ub)]
     uc = np.asarray(C.updates_np(uc)[0], np.float64)
@@ -166,37 +184,41 @@ def run(plan):
                       tick=t, block=k, diff=dlt, scale=scb)
     else:
       ctx.ev('companion_twin', 'vacuous')
-    # block twin
-    for k, (sl, _) in enumerate(grid):
-      x, y = ua[sl], ub[k]
+    # block twin (all blocks as leaves of one tree, and one block optimized
+    # entirely on its own)
+    pairs = [(k, ua[sl], ub[k], 'block_twin') for k, (sl, _) in enumerate(grid)]
+    pairs.append((solo, ua[grid[solo][0]], ub1, 'solo_block_twin'))
+    ctx.probe('solo_block_checked')
+    for k, x, y, oname in pairs:
+      sl = grid[k][0]
       if not (np.all(np.isfinite(x)) and np.all(np.isfinite(y))):
-        ctx.ev('block_twin', 'vacuous')
+        ctx.ev(oname, 'vacuous')
         continue
       nx, ny = float(np.linalg.norm(x)), float(np.linalg.norm(y))
       gb = g[sl]
       if not np.any(gb):
         ok = nx == 0.0 and ny == 0.0 or (nx <= 1e-30 and ny <= 1e-30)
-        ctx.ev('block_twin', 'ok' if ok else 'violation')
+        ctx.ev(oname, 'ok' if ok else 'violation')
         if not ok:
-          ctx.violate('block_twin', mk, 'zero_gradient_block_gets_update',
+          ctx.violate(oname, mk, 'zero_gradient_block_gets_update',
                       tick=t, block=k, norm_blocked=nx, norm_separate=ny)
         continue
       if grafted:
         if ny == 0.0 and nx == 0.0:
-          ctx.ev('block_twin')
+          ctx.ev(oname)
           continue
         if (nx == 0.0) != (ny == 0.0):
-          ctx.violate('block_twin', mk, 'block_zeroed_by_other_blocks_scale',
+          ctx.violate(oname, mk, 'block_zeroed_by_other_blocks_scale',
                       tick=t, block=k, norm_blocked=nx, norm_separate=ny,
                       scale=float(scales[k]), max_scale=float(np.max(scales)))
-          ctx.ev('block_twin', 'violation')
+          ctx.ev(oname, 'violation')
           continue
         dirn = float(np.linalg.norm(x / nx - y / ny))
         tol = 2e-3 if sysm == 'ds' else 1e-6
         ok = dirn <= tol
-        ctx.ev('block_twin', 'ok' if ok else 'violation', dirn / tol)
+        ctx.ev(oname, 'ok' if ok else 'violation', dirn / tol)
         if not ok:
-          ctx.violate('block_twin', mk, 'block_direction_differs', tick=t,
+          ctx.violate(oname, mk, 'block_direction_differs', tick=t,
                       block=k, angle=dirn, scale=float(scales[k]),
                       max_scale=float(np.max(scales)))
       else:
@@ -204,11 +226,11 @@ def run(plan):
         tol = (2e-3 if sysm == 'ds' else 1e-6) * scb
         dlt = float(np.max(np.abs(x - y)))
         ok = dlt <= tol + 1e-300
-        ctx.ev('block_twin', 'ok' if ok else 'violation', dlt / (tol + 1e-300))
+        ctx.ev(oname, 'ok' if ok else 'violation', dlt / (tol + 1e-300))
         if not ok:
           pred = 'block_zeroed_by_other_blocks_scale' if (
               nx == 0.0 and ny > 0) else 'block_update_differs'
-          ctx.violate('block_twin', mk, pred, tick=t, block=k, diff=dlt,
+          ctx.violate(oname, mk, pred, tick=t, block=k, diff=dlt,
                       scale=float(scales[k]), max_scale=float(np.max(scales)))
     ctx.ticks += 1
     ctx.log.add(op='STEP', t=t, a=sha_leaves({'a': ua}), c=sha_leaves({'c': uc}))
